@@ -312,7 +312,7 @@ class _CppSwapTranslator(TranslatorBase):
                     gen_member(last_mem, delimiters)
                 )
             else:
-                return gen_member(last_mem) + ';\n' + 'return payload + 1;\n'
+                return gen_member(last_mem, delimiters) + ';\n' + 'return payload + 1;\n'
 
         def gen_main(main, parts):
             all_names = {mem.name: 'payload' for mem in main}
@@ -322,9 +322,11 @@ class _CppSwapTranslator(TranslatorBase):
             def get_missing(part_number):
                 part = parts[part_number]
                 names = [mem.name for mem in part]
-                return [(all_names[mem.bound], mem.bound)
-                        for mem in part
-                        if mem.bound and mem.bound not in names]
+                missing = []
+                for mem in part:
+                    if mem.bound and mem.bound not in names and (all_names[mem.bound], mem.bound) not in missing:
+                        missing.append((all_names[mem.bound], mem.bound))
+                return missing
 
             def gen_missing(part_number):
                 return ''.join(', {0}->{1}'.format(x[0], x[1]) for x in get_missing(part_number))
@@ -346,7 +348,10 @@ class _CppSwapTranslator(TranslatorBase):
 
         def gen_part(part_number, part):
             names = [mem.name for mem in part]
-            delimiters = [mem.bound for mem in part if mem.bound and mem.bound not in names]
+            delimiters = []
+            for mem in part:
+                if mem.bound and mem.bound not in names and mem.bound not in delimiters:
+                    delimiters.append(mem.bound)
             members = ''.join(gen_member(mem, delimiters) + ';\n' for mem in part[:-1])
             members += gen_last_member('{0}::part{1}'.format(struct.name, part_number), part[-1], delimiters)
             delimiters_list = ''.join(', size_t {0}'.format(x) for x in delimiters)
